@@ -8,6 +8,7 @@
 #[allow(dead_code)]
 mod ast;
 mod model;
+mod resume;
 mod v0host;
 
 use ast::{ExportKind, Func, FuncType, Import, Instr, Module, VT};
@@ -226,7 +227,28 @@ fn short(o: &Outcome) -> String {
     }
 }
 
+/// The chain's answer to one interrupt, and whether it says the instance state was updated
+/// (then the state is frozen, thawed afresh and given one more entry, as a re-entrant call would).
+#[derive(Clone, Debug, PartialEq, Eq)]
+struct Answer {
+    resp:          Resp,
+    state_updated: bool,
+}
+
+const EXTERNAL_KEY: [u8; 1] = [0x99];
+const EXTERNAL_VAL: [u8; 2] = [9, 9];
+
+/// What an interrupt that was answered showed to the chain.
+#[derive(Clone, Debug, PartialEq, Eq)]
+struct Section {
+    what:          String,
+    logs:          Vec<Vec<u8>>,
+    state_changed: bool,
+}
+
 struct RealRun {
+    /// the answered interrupts, in order
+    sections:  Vec<Section>,
     outcome:   Outcome,
     remaining: Option<u64>,
     /// energy charged per successfully completed host call, in order
@@ -250,7 +272,7 @@ fn interrupt_text(i: &v1::Interrupt) -> String {
     }
 }
 
-fn run_real(wasm: &[u8], c: &Ctx, budget: u64) -> Result<RealRun, String> {
+fn run_real(wasm: &[u8], c: &Ctx, budget: u64, answers: &[Answer]) -> Result<RealRun, String> {
     let inst = instantiate_with_metering::<ProcessedImports>(ValidationConfig::V1, CostConfigurationV1, &ConcordiumAllowedImports { support_upgrade: true, enable_debug: false }, wasm).map_err(|e| format!("module rejected: {e:#}"))?;
     let artifact: concordium_wasm::artifact::Artifact<ProcessedImports, CompiledFunction> = inst.artifact;
     let init = initial_state();
@@ -273,24 +295,77 @@ fn run_real(wasm: &[u8], c: &Ctx, budget: u64) -> Result<RealRun, String> {
         let inv = ReceiveInvocation { amount: Amount::from_micro_ccd(0), receive_name: name.as_receive_name(), parameter: &c.parameter[..], energy: InterpreterEnergy::new(budget) };
         v1::invoke_receive::<_, _, CompiledFunction, _, _, ReceiveContext<Vec<u8>>, DebugTracker>(std::sync::Arc::new(artifact), rc, inv, state, params_of(c.params))
     };
-    let result = result.map_err(|e| format!("invalid return code: {e:?}"))?;
+    let mut result = result.map_err(|e| format!("invalid return code: {e:?}"))?;
     let trace_of = |t: &DebugTracker| t.host_call_trace.iter().map(|(_, h)| (h.host_function.to_string(), h.energy_used.energy)).collect::<Vec<_>>();
     let logs_of = |l: &v0::Logs| l.iterate().cloned().collect::<Vec<_>>();
-    Ok(match result {
-        ReceiveResult::Success { logs, return_value, remaining_energy, trace, .. } => {
-            let frozen = mutable.freeze(&mut loader, &mut EmptyCollector);
-            let state: Vec<(Vec<u8>, Vec<u8>)> = frozen.into_iterator(&mut loader).collect();
-            RealRun { outcome: Outcome::Success { rv: return_value, logs: logs_of(&logs), state }, remaining: Some(remaining_energy.energy), per_call: trace_of(&trace) }
+    let mut sections = vec![];
+    let mut per_call = vec![];
+    let mut answers = answers.iter();
+    loop {
+        match result {
+            ReceiveResult::Interrupt { remaining_energy, state_changed, logs, config, interrupt, trace } => {
+                per_call.extend(trace_of(&trace));
+                let Some(ans) = answers.next() else {
+                    return Ok(RealRun { sections, outcome: Outcome::Interrupt { what: interrupt_text(&interrupt), logs: logs_of(&logs) }, remaining: Some(remaining_energy.energy), per_call });
+                };
+                sections.push(Section { what: interrupt_text(&interrupt), logs: logs_of(&logs), state_changed });
+                if ans.state_updated {
+                    // what the chain does for a re-entrant update: the state is persisted, the inner
+                    // call works on a fresh copy, and the outer call is resumed on the result
+                    let frozen = mutable.freeze(&mut loader, &mut EmptyCollector);
+                    let mut entries: Vec<(Vec<u8>, Vec<u8>)> = frozen.into_iterator(&mut loader).collect();
+                    entries.retain(|(k, _)| k[..] != EXTERNAL_KEY[..]);
+                    entries.push((EXTERNAL_KEY.to_vec(), EXTERNAL_VAL.to_vec()));
+                    mutable = PersistentState::from_iterator(entries.iter().map(|(k, v)| (&k[..], v.clone()))).thaw();
+                }
+                let response = match &ans.resp {
+                    Resp::Success { new_balance, data } => v1::InvokeResponse::Success { new_balance: Amount::from_micro_ccd(*new_balance), data: data.clone() },
+                    Resp::Reject { code, data } => v1::InvokeResponse::Failure { kind: v1::InvokeFailure::ContractReject { code: *code, data: data.clone() } },
+                    Resp::Fail(k) => v1::InvokeResponse::Failure {
+                        kind: match k {
+                            1 => v1::InvokeFailure::InsufficientAmount,
+                            2 => v1::InvokeFailure::NonExistentAccount,
+                            3 => v1::InvokeFailure::NonExistentContract,
+                            4 => v1::InvokeFailure::NonExistentEntrypoint,
+                            5 => v1::InvokeFailure::SendingV0Failed,
+                            6 => v1::InvokeFailure::RuntimeError,
+                            7 => v1::InvokeFailure::UpgradeInvalidModuleRef,
+                            8 => v1::InvokeFailure::UpgradeInvalidContractName,
+                            9 => v1::InvokeFailure::UpgradeInvalidVersion,
+                            10 => v1::InvokeFailure::SignatureDataMalformed,
+                            _ => v1::InvokeFailure::SignatureCheckFailed,
+                        },
+                    },
+                };
+                result = v1::resume_receive::<_, DebugTracker>(config, response, remaining_energy, &mut mutable, ans.state_updated, Loader::new(&store[..])).map_err(|e| format!("resume failed: {e:?}"))?;
+            }
+            ReceiveResult::Success { logs, return_value, remaining_energy, trace, .. } => {
+                per_call.extend(trace_of(&trace));
+                let frozen = mutable.freeze(&mut loader, &mut EmptyCollector);
+                let state: Vec<(Vec<u8>, Vec<u8>)> = frozen.into_iterator(&mut loader).collect();
+                return Ok(RealRun { sections, outcome: Outcome::Success { rv: return_value, logs: logs_of(&logs), state }, remaining: Some(remaining_energy.energy), per_call });
+            }
+            ReceiveResult::Reject { reason, remaining_energy, trace, .. } => {
+                per_call.extend(trace_of(&trace));
+                return Ok(RealRun { sections, outcome: Outcome::Reject(reason), remaining: Some(remaining_energy.energy), per_call });
+            }
+            ReceiveResult::Trap { remaining_energy, trace, .. } => {
+                per_call.extend(trace_of(&trace));
+                return Ok(RealRun { sections, outcome: Outcome::Trap, remaining: Some(remaining_energy.energy), per_call });
+            }
+            ReceiveResult::OutOfEnergy { trace } => {
+                per_call.extend(trace_of(&trace));
+                return Ok(RealRun { sections, outcome: Outcome::OutOfEnergy, remaining: None, per_call });
+            }
         }
-        ReceiveResult::Interrupt { remaining_energy, logs, interrupt, trace, .. } => RealRun { outcome: Outcome::Interrupt { what: interrupt_text(&interrupt), logs: logs_of(&logs) }, remaining: Some(remaining_energy.energy), per_call: trace_of(&trace) },
-        ReceiveResult::Reject { reason, remaining_energy, trace, .. } => RealRun { outcome: Outcome::Reject(reason), remaining: Some(remaining_energy.energy), per_call: trace_of(&trace) },
-        ReceiveResult::Trap { remaining_energy, trace, .. } => RealRun { outcome: Outcome::Trap, remaining: Some(remaining_energy.energy), per_call: trace_of(&trace) },
-        ReceiveResult::OutOfEnergy { trace } => RealRun { outcome: Outcome::OutOfEnergy, remaining: None, per_call: trace_of(&trace) },
-    })
+    }
 }
 
 /// What the model allows for a script.
 struct Expect {
+    /// the answered interrupts: what the chain must have been shown, and whether the section
+    /// before it modified the state
+    sections: Vec<(Section, bool)>,
     /// acceptable outcomes (more than one where charging and bounds checking may come in either order)
     allowed:  Vec<Outcome>,
     per_call: Vec<(F, u128)>,
@@ -298,54 +373,23 @@ struct Expect {
     full:     Script,
 }
 
-fn expect(script: &Script, c: &Ctx, mem0: &[u8]) -> Expect {
-    // pass 1: the script proper, to learn the return value length; pass 2 with the epilogue
-    let run = |s: &Script| -> (Model, Option<Step>, bool, Vec<(F, u128)>) {
-        let mut m = Model::new(c.clone(), mem0.to_vec(), &initial_state());
-        let mut results: Vec<u64> = vec![];
-        let mut per = vec![];
-        let mut ambiguous = false;
-        for call in s {
-            let args: Vec<u64> = call.args.iter().map(|a| match a { Arg::C(v) => *v, Arg::Res(k) => results[*k] }).collect();
-            // i32 parameters see the low 32 bits
-            let (_, ps, r) = sig(call.f);
-            let args: Vec<u64> = args.iter().zip(ps.iter()).map(|(v, w)| if *w { *v } else { *v & 0xffff_ffff }).collect();
-            let cr = m.call(call.f, &args);
-            per.push((call.f, cr.cost));
-            let unaffordable = m.cost > (BUDGET as u128).saturating_sub(2_000_000);
-            if unaffordable {
-                if m.cost <= BUDGET as u128 || cr.oob || cr.step == Step::Trap {
-                    ambiguous = true;
-                }
-                return (m, Some(Step::Trap), true | ambiguous, per); // marker: energy
-            }
-            match cr.step {
-                Step::Ret(v) => {
-                    let stored = match r {
-                        None => 0x5555,
-                        Some(true) => v.unwrap_or(0),
-                        Some(false) => v.unwrap_or(0) & 0xffff_ffff,
-                    };
-                    results.push(stored);
-                    let at = RES as usize + 8 * (results.len() - 1);
-                    m.mem[at..at + 8].copy_from_slice(&stored.to_le_bytes());
-                }
-                other => return (m, Some(other), false, per),
-            }
-        }
-        (m, None, false, per)
-    };
-    let (m1, stop1, energy1, _) = run(script);
-    let rv_len = if stop1.is_none() { m1.rv.len() as u32 } else { 0 };
-    let full = with_epilogue(script, rv_len);
-    let _ = energy1;
-    // second pass over the full script, tracking the energy question precisely
+fn clears_logs(i: &Interrupt) -> bool { matches!(i, Interrupt::Transfer { .. } | Interrupt::Call { .. } | Interrupt::Upgrade { .. }) }
+
+fn flat(m: &Model) -> Vec<(Vec<u8>, Vec<u8>)> { m.map.iter().map(|(k, e)| (k.clone(), e.val.clone())).collect() }
+
+/// Run the model over `s`, answering interrupts from `answers`. Returns the model, the sections,
+/// the outcomes allowed so far, whether the end of the script was reached, and the per-call costs.
+fn model_run(s: &Script, answers: &[Answer], c: &Ctx, mem0: &[u8]) -> (Model, Vec<(Section, bool)>, Vec<Outcome>, bool, Vec<(F, u128)>) {
     let mut m = Model::new(c.clone(), mem0.to_vec(), &initial_state());
     let mut results: Vec<u64> = vec![];
     let mut per = vec![];
     let mut allowed = vec![];
-    for call in &full {
+    let mut sections = vec![];
+    let mut answers = answers.iter();
+    let mut snapshot = flat(&m);
+    for call in s {
         let (_, ps, r) = sig(call.f);
+        // i32 parameters see the low 32 bits
         let args: Vec<u64> = call.args.iter().zip(ps.iter()).map(|(a, w)| { let v = match a { Arg::C(v) => *v, Arg::Res(k) => results[*k] }; if *w { v } else { v & 0xffff_ffff } }).collect();
         let cr = m.call(call.f, &args);
         per.push((call.f, cr.cost));
@@ -356,43 +400,71 @@ fn expect(script: &Script, c: &Ctx, mem0: &[u8]) -> Expect {
             if cr.step == Step::Trap {
                 allowed.push(Outcome::Trap);
             }
-            return Expect { allowed, per_call: per, full };
+            return (m, sections, allowed, false, per);
         }
         let near = m.cost > (BUDGET as u128).saturating_sub(margin);
         if near {
             allowed.push(Outcome::OutOfEnergy);
         }
-        match cr.step {
-            Step::Ret(v) => {
-                let stored = match r {
-                    None => 0x5555,
-                    Some(true) => v.unwrap_or(0),
-                    Some(false) => v.unwrap_or(0) & 0xffff_ffff,
-                };
-                results.push(stored);
-                let at = RES as usize + 8 * (results.len() - 1);
-                m.mem[at..at + 8].copy_from_slice(&stored.to_le_bytes());
-            }
+        let value = match cr.step {
+            Step::Ret(v) => v,
             Step::Trap => {
                 allowed.push(Outcome::Trap);
-                return Expect { allowed, per_call: per, full };
+                return (m, sections, allowed, false, per);
             }
             Step::Interrupt(i) => {
-                allowed.push(Outcome::Interrupt { what: format!("{i:?}"), logs: m.logs.clone() });
-                return Expect { allowed, per_call: per, full };
+                // logs are handed over per section by the interrupts that leave the contract
+                let logs = if clears_logs(&i) { std::mem::take(&mut m.logs) } else { vec![] };
+                let Some(ans) = answers.next() else {
+                    allowed.push(Outcome::Interrupt { what: format!("{i:?}"), logs });
+                    return (m, sections, allowed, false, per);
+                };
+                sections.push((Section { what: format!("{i:?}"), logs, state_changed: false }, flat(&m) != snapshot));
+                let v = m.resume(&ans.resp, if ans.state_updated { Some((&EXTERNAL_KEY, &EXTERNAL_VAL)) } else { None });
+                if ans.state_updated {
+                    snapshot = flat(&m);
+                }
+                Some(v)
             }
-        }
+        };
+        let stored = match r {
+            None => 0x5555,
+            Some(true) => value.unwrap_or(0),
+            Some(false) => value.unwrap_or(0) & 0xffff_ffff,
+        };
+        results.push(stored);
+        let at = RES as usize + 8 * (results.len() - 1);
+        m.mem[at..at + 8].copy_from_slice(&stored.to_le_bytes());
     }
-    allowed.push(Outcome::Success { rv: m.rv.clone(), logs: m.logs.clone(), state: m.map.iter().map(|(k, e)| (k.clone(), e.val.clone())).collect() });
-    Expect { allowed, per_call: per, full }
+    (m, sections, allowed, true, per)
 }
 
-fn check_script(report: &Report, script: &Script, c: &Ctx, mem0: &[u8], energy_probe: bool) {
+fn expect(script: &Script, answers: &[Answer], c: &Ctx, mem0: &[u8]) -> Expect {
+    // pass 1: the script proper, to learn the return value length; pass 2 with the epilogue
+    let (m1, _, _, completed1, _) = model_run(script, answers, c, mem0);
+    let rv_len = if completed1 { m1.rv.len() as u32 } else { 0 };
+    let full = with_epilogue(script, rv_len);
+    let (m, sections, mut allowed, completed, per) = model_run(&full, answers, c, mem0);
+    if completed {
+        allowed.push(Outcome::Success { rv: m.rv.clone(), logs: m.logs.clone(), state: flat(&m) });
+    }
+    Expect { sections, allowed, per_call: per, full }
+}
+
+fn check_script(report: &Report, script: &Script, c: &Ctx, mem0: &[u8], energy_probe: bool) { check_script_r(report, script, &[], c, mem0, energy_probe) }
+
+fn check_script_r(report: &Report, script: &Script, answers: &[Answer], c: &Ctx, mem0: &[u8], energy_probe: bool) {
     report.eval(1);
-    let w = || json!({"params": c.params.name, "script": script_json(script)});
-    let e = expect(script, c, mem0);
+    let w = || {
+        if answers.is_empty() {
+            json!({"params": c.params.name, "script": script_json(script)})
+        } else {
+            json!({"params": c.params.name, "script": script_json(script), "answers": answers.iter().map(|a| format!("{:?} state_updated={}", a.resp, a.state_updated)).collect::<Vec<_>>()})
+        }
+    };
+    let e = expect(script, answers, c, mem0);
     let wasm = module_of(&e.full, mem0);
-    let real = match mc_core::catch(|| run_real(&wasm, c, BUDGET)) {
+    let real = match mc_core::catch(|| run_real(&wasm, c, BUDGET, answers)) {
         Ok(Ok(r)) => r,
         Ok(Err(msg)) => {
             report.violation("machinery: generated contract not runnable", w(), json!({"error": msg}));
@@ -404,6 +476,30 @@ fn check_script(report: &Report, script: &Script, c: &Ctx, mem0: &[u8], energy_p
         }
     };
     report.trace(1);
+    // the answered interrupts: payload and the logs handed over, in order; a section that
+    // modified the state must say so
+    for (i, obs) in real.sections.iter().enumerate() {
+        match e.sections.get(i) {
+            None => {
+                report.violation("outcome-differs-from-host-interface", w(), json!({"observed": format!("interrupt #{i}: {}", obs.what), "expected": "no further interrupt"}));
+                return;
+            }
+            Some((exp, modified)) => {
+                if exp.what != obs.what || exp.logs != obs.logs {
+                    report.violation("outcome-differs-from-host-interface", w(), json!({"observed": format!("interrupt #{i}: {} logs={:?}", obs.what, obs.logs), "expected": format!("{} logs={:?}", exp.what, exp.logs)}));
+                    return;
+                }
+                if *modified && !obs.state_changed {
+                    report.violation("state-modification-not-reported-at-interrupt", w(), json!({"interrupt": i, "what": obs.what}));
+                    return;
+                }
+            }
+        }
+    }
+    if real.sections.len() < e.sections.len() && !matches!(real.outcome, Outcome::OutOfEnergy) {
+        report.violation("outcome-differs-from-host-interface", w(), json!({"observed": format!("{} after {} interrupts", short(&real.outcome).chars().take(300).collect::<String>(), real.sections.len()), "expected": format!("{} interrupts", e.sections.len())}));
+        return;
+    }
     if !e.allowed.contains(&real.outcome) {
         report.violation("outcome-differs-from-host-interface", w(), json!({"observed": short(&real.outcome).chars().take(700).collect::<String>(), "expected": e.allowed.iter().map(|o| short(o).chars().take(700).collect::<String>()).collect::<Vec<_>>()}));
         return;
@@ -425,8 +521,10 @@ fn check_script(report: &Report, script: &Script, c: &Ctx, mem0: &[u8], energy_p
         Outcome::Trap | Outcome::OutOfEnergy => e.per_call.len().saturating_sub(1),
         _ => e.per_call.len(),
     };
-    for (i, (name, used)) in real.per_call.iter().enumerate().take(completed) {
-        if let Some((f, sched)) = e.per_call.get(i) {
+    // (`upgrade` is not part of the implementation's host call trace)
+    let scheduled: Vec<&(F, u128)> = e.per_call.iter().take(completed).filter(|(f, _)| *f != F::Upgrade).collect();
+    for (i, (name, used)) in real.per_call.iter().enumerate() {
+        if let Some((f, sched)) = scheduled.get(i) {
             if sig(*f).0 != name {
                 report.violation("machinery: host call trace out of step", w(), json!({"index": i, "traced": name, "model": sig(*f).0}));
                 return;
@@ -442,7 +540,7 @@ fn check_script(report: &Report, script: &Script, c: &Ctx, mem0: &[u8], energy_p
         if let (Outcome::Success { .. }, Some(rem)) = (&real.outcome, real.remaining) {
             let used = BUDGET - rem;
             report.eval(2);
-            match (mc_core::catch(|| run_real(&wasm, c, used)), mc_core::catch(|| run_real(&wasm, c, used.saturating_sub(1)))) {
+            match (mc_core::catch(|| run_real(&wasm, c, used, answers)), mc_core::catch(|| run_real(&wasm, c, used.saturating_sub(1), answers))) {
                 (Ok(Ok(exact)), Ok(Ok(less))) => {
                     if exact.outcome != real.outcome {
                         report.violation("energy-accounting-not-deterministic", w(), json!({"budget": used, "observed": short(&exact.outcome).chars().take(300).collect::<String>()}));
@@ -708,6 +806,8 @@ fn run_engine(cli: &Cli, report: &Report) {
     report.set_extra("script_cases", json!(scripts.len()));
     let p7 = ctx(P7);
     scripts.par_iter().for_each(|s| check_script(report, s, &p7, &mem0, false));
+    // ---- layer 4: interrupts answered and resumed; call depth ---------------------------------
+    resume::run_resume(report, cli.tier, &mem0, &atoms);
     // ---- the legacy (v0) interface -------------------------------------------------------------
     v0host::run_v0(report, cli.tier, &mem0);
 }
@@ -726,8 +826,8 @@ fn main() {
     report.nontrivial(n);
     report.sample(json!({"params": "P4", "script": ["state_lookup_entry(0x100, 0x1)", "state_lookup_entry(0x100, 0x2)", "state_iterate_prefix(0x100, 0x1)", "state_entry_read(result[0], 0xffff, 0x5, 0x1)"], "expected": "trap (destination window leaves the linear memory)"}));
     report.sample(json!({"params": "P4", "script": ["write_output(0x0, 0x4000, 0x0)", "write_output(0x200, 0x2, 0x3fff)"], "expected": "second call writes 1 byte (return value capped at 16384 under P4), 2 bytes under P7"}));
-    report.set_technique("exhaustive enumeration: every v1 host function x the full cartesian product of a hostile argument alphabet per parameter role (pointers at 0 / in range / last byte / one past / 2^31 / 2^32-1, lengths 0..2^32-1 at the memory, log and parameter boundaries, offsets around every object size, valid / stale / foreign / sentinel handles, every invoke tag and one undefined) after a common state prefix, under protocol parameter sets P4..P7; targeted limit contexts; all scripts of <= 2 (thorough 3) calls over a reduced alphabet; each compiled to a real contract, run through invoke_receive and compared with a reference model of the documented host interface");
-    report.set_rule("one case = one generated contract executed once (plus, for a sixteenth of the successful single calls and all context cases, twice more with the exact and the exact-minus-one energy budget): the outcome (success with return value, logs and final state / trap / out of energy / interrupt with payload) must be one the model allows, no panic, and every completed host call charges at least its scheduled energy");
+    report.set_technique("exhaustive enumeration: every v1 host function x the full cartesian product of a hostile argument alphabet per parameter role (pointers at 0 / in range / last byte / one past / 2^31 / 2^32-1, lengths 0..2^32-1 at the memory, log and parameter boundaries, offsets around every object size, valid / stale / foreign / sentinel handles, every invoke tag and one undefined) after a common state prefix, under protocol parameter sets P4..P7; targeted limit contexts; all scripts of <= 2 (thorough 3) calls over a reduced alphabet; each compiled to a real contract, run through invoke_receive and compared with a reference model of the documented host interface; interrupts answered and resumed through resume_receive (one and two interrupts x answers x carried-over effects x follow-up calls); recursive nesting programs around the 1024-frame limit with interrupts at stage boundaries on v1 receive / v1 init / v0; the same product scheme for the 19 v0 host functions");
+    report.set_rule("one case = one generated contract executed once (plus, for a sixteenth of the successful single calls and all context cases, twice more with the exact and the exact-minus-one energy budget): the outcome (success with return value, logs and final state / trap / out of energy / interrupt with payload) must be one the model allows, no panic, and every completed host call charges at least its scheduled energy; for answered interrupts also the payload, the logs handed over, the state-changed flag and the value returned to the contract; a nesting program ends normally iff its deepest nesting is <= 1024");
     report.assume("secp256k1 verification is only exercised with invalid signatures (the engine is built against a stand-in for the uncached secp256k1 crate); ed25519 goes through ed25519-dalek in both the stand-in and the model");
     report.assume("energy the model cannot bound from the documentation (trie traversal steps) is treated as a lower bound: charged >= scheduled");
     report.finish(true, json!({"functions": ALL.len(), "tier": format!("{:?}", cli.tier)}));
